@@ -65,6 +65,37 @@ def get_lifecycle(name: str | None) -> Any:
     return getattr(kopf.lifecycles, name)
 
 
+def syncify(desc: dict[str, Any], rng: random.Random, p_case: float = 0.2, p_handler: float = 0.6) -> dict[str, Any]:
+    """
+    Turn a share of a scenario's handlers into synchronous functions (``def``): kopf runs those in its thread pool, with the
+    thread-side stop flag for daemons; kv.vthreads keeps the clock virtual meanwhile. The scripts stay what they are.
+    A thread cannot be cancelled, so the cancellation-dependent daemon personas become lingering ones.
+    """
+    if rng.random() >= p_case:
+        return desc
+    n = 0
+    for h in desc.get('handlers') or []:
+        if h.get('kind') not in ('create', 'update', 'delete', 'resume', 'field', 'timer', 'daemon'):
+            continue
+        if h.get('explicit_execute') or h.get('subs_before_outcome') or h.get('fail_after_subs'):
+            continue        # kopf.execute() is a coroutine: parents calling it stay asynchronous
+        for sub in h.get('subs') or []:
+            if rng.random() < p_handler:
+                sub['sync'] = True
+                n += 1
+        if rng.random() >= p_handler:
+            continue
+        if h['kind'] == 'daemon':
+            persona = h.get('persona') or {'type': 'obedient'}
+            if persona.get('type') in ('stubborn', 'swallow'):
+                h['persona'] = {'type': 'linger', 'linger': rng.choice([4.0, 8.0])}
+        h['sync'] = True
+        n += 1
+    if n:
+        desc['sync_handlers'] = n
+    return desc
+
+
 class World:
     def __init__(self, desc: dict[str, Any]) -> None:
         self.desc = desc
